@@ -112,6 +112,9 @@ func (s *appStream) boot(r *tr.Rng) {
 	nv := tr.Pick(r, 1, 2, 3, 3, 4)
 	nval := tr.Pick(r, 1, 2, 3, 4)
 	maxv := tr.Pick(r, 2, 3, 100)
+	if strings.HasPrefix(s.profile, "app-export") {
+		maxv = tr.Pick(r, 2, 2, 3) // more candidates than seats: pending validators with power are waiting when the state is exported
+	}
 	if maxv < nval {
 		maxv = nval // a genesis whose active set exceeds MaxValidators is not a state the chain can reach
 	}
@@ -797,6 +800,10 @@ func (s *appStream) genBlock(r *tr.Rng) {
 	if strings.HasPrefix(s.profile, "app-proposal") && len(rawTxs) == 0 && r.Chance(40) {
 		sc2 := script
 		s.realPrepare(r, ptxs, &sc2)
+	}
+	if strings.HasPrefix(s.profile, "app-proposal") && len(rawTxs) == 0 && r.Chance(35) {
+		sc3 := script
+		s.walkPrepare(r, &sc3)
 	}
 	// faults hit the two calls `Finalized` makes (DirectBuild does not consult faults)
 	if newStatus != "VALID" {
